@@ -272,6 +272,33 @@ def BufEntry.increment {α : Type} (cap : Nat) (e : BufEntry α) : Option (BufEn
 /-- the `(current, rest)` view of a buffered entry -/
 def BufEntry.view {α : Type} (e : BufEntry α) : List α := e.buf ++ e.file
 
+/-- The same entry at file level (sort.hh:174-199): the buffer from `current_` on, `offset_` and
+`remaining_` (in records) into the shared data file. -/
+structure FileEntry (α : Type) where
+  buf : List α
+  offset : Nat
+  remaining : Nat
+  deriving Repr
+
+/-- `Entry::Read`: `amount = min(buf_size, remaining_)` records are `pread` at `offset_`; then
+`offset_ += amount; remaining_ -= amount`; returns false when nothing remains. -/
+def FileEntry.read {α : Type} (data : List α) (cap : Nat) (offset remaining : Nat) : Option (FileEntry α) :=
+  if remaining = 0 then none
+  else
+    let amount := if cap < remaining then cap else remaining
+    some ⟨readAt data (offset, amount), offset + amount, remaining - amount⟩
+
+/-- `Entry::Increment` at file level. -/
+def FileEntry.increment {α : Type} (data : List α) (cap : Nat) (e : FileEntry α) : Option (FileEntry α) :=
+  match e.buf.drop 1 with
+  | [] => FileEntry.read data cap e.offset e.remaining
+  | b :: bs => some ⟨b :: bs, e.offset, e.remaining⟩
+
+/-- the buffered-entry view of a file-level entry: what is still on disk is the slice
+`[offset_, offset_ + remaining_)` of the data file -/
+def FileEntry.abs {α : Type} (data : List α) (e : FileEntry α) : BufEntry α :=
+  ⟨e.buf, readAt data (e.offset, e.remaining)⟩
+
 /-- `queue.Push` of every non-empty run. -/
 def toQueue {α : Type} (runs : List (List α)) : List (QEntry α) :=
   runs.filterMap (fun r => match r with | [] => none | x :: xs => some (x, xs))
